@@ -304,15 +304,20 @@ def step (mode : String) (d : DS) (toks : List String) (impl : String) : DS × R
     | none => (d, { model := "unknown-chain", tags := ["prove"] })
     | some ep =>
       let fast := honestPre ep r
+      -- "An honestly generated proof always verifies": the implementation's own proof, folded by the model's validator
+      let implProof := (parseHashes (kv (words impl) "proof")).toList
+      let mon := if (words impl).head? == some "err" || impl == "panic" then ["prover_builds_proof"]
+        else if Mk.fold Hsha (epochRecHash ep r) implProof (preIndex r) != ep.root then ["honest_proof_verifies"] else []
       -- once per chain the proved prover `Mk.prove` over the tree `Hp.epochTree` is run as well
       if d.mkChecked.contains c then
-        (d, { model := "proof=" ++ hexHashes fast, tags := ["prove"] })
+        (d, { model := "proof=" ++ hexHashes fast, monitor := mon, tags := ["prove"] })
       else
         let slow := proveEpoch Hsha ep.recs r
         -- (`Mk.complete`: the branch of `Mk.prove` folds to the root of `Hp.epochTree`; so this also compares that root)
         let agree := slow == some fast && Mk.fold Hsha (epochRecHash ep r) fast (preIndex r) == ep.root
         ({ d with mkChecked := c :: d.mkChecked },
-         { model := if agree then "proof=" ++ hexHashes fast else "prover-models-disagree", tags := ["prove", "prove-by-Mk.prove"] })
+         { model := if agree then "proof=" ++ hexHashes fast else "prover-models-disagree", monitor := mon,
+           tags := ["prove", "prove-by-Mk.prove"] })
   | some "hwp" =>
     let c := kvNat toks "chain"
     let e := kvNat toks "ep"
